@@ -19,6 +19,7 @@ pub mod c13;
 pub mod c14;
 pub mod c16;
 pub mod c17;
+pub mod c18;
 pub mod c19;
 
 pub struct Check {
@@ -31,7 +32,7 @@ pub struct Check {
 }
 
 pub fn all() -> Vec<Check> {
-    vec![c01::CHECK, c02::CHECK, c03::CHECK, c04::CHECK, c05::CHECK, c06::CHECK, c07::CHECK, c08::CHECK, c09::CHECK, c10::CHECK, c11::CHECK, c12::CHECK, c13::CHECK, c14::CHECK, c16::CHECK, c17::CHECK, c19::CHECK]
+    vec![c01::CHECK, c02::CHECK, c03::CHECK, c04::CHECK, c05::CHECK, c06::CHECK, c07::CHECK, c08::CHECK, c09::CHECK, c10::CHECK, c11::CHECK, c12::CHECK, c13::CHECK, c14::CHECK, c16::CHECK, c17::CHECK, c18::CHECK, c19::CHECK]
 }
 
 /// entry point of worker subprocesses (C08, C18, C20)
